@@ -70,6 +70,10 @@ MALFORMED = [
     "日本*".encode() + EMBEDDED.encode() + b";\n",
     b"*" + EMBEDDED[:10].encode() + b"\xff" + EMBEDDED[10:].encode() + b";\n",
     b"\xe2\x82*" + EMBEDDED.encode() + b";\n",
+    b"*98aabbcc;\n",                          # DF19 cut short (its parser needs one byte only)
+    b"*a0001910204d7075d35820c25c;\n",         # DF20 cut short by one byte (its struct has no parity field)
+    b"*98;\n",
+    b"*a8001910204d7075d35820c25c0c;\n"[:-4] + b";\n",  # DF21 cut short
 ]
 
 DELAYS = [0.0, 0.0, 0.005, 0.03, 0.07, 0.15, 0.15, 0.4]
@@ -194,6 +198,8 @@ def run_1090(case):
                 fails.append(("C16/1090/terminated", f"1090 terminated: {s.err.decode(errors='replace')[-300:]}"))
         if not crashed:
             lines = s.lines()
+            if OTHER in lines:
+                fails.append(("C16/1090/unframed_processed", "a frame that only ever occurs in lines without the leading '*' or the closing ';' was processed"))
             if EMBEDDED in lines:
                 fails.append(("C16/1090/malformed_processed", "part of a line that is malformed as a whole (non-ASCII bytes before or inside the frame) was processed as a frame"))
             good, got = in_order_once(lines, w)
@@ -307,6 +313,8 @@ def run_radar(case):
             else:
                 fails.append(("C16/radar/terminated", f"radar terminated: {s.stderr()[-400:]}"))
             return fails, w
+        if OTHER in s.log_bytes_lines():
+            fails.append(("C16/radar/unframed_processed", "a frame that only ever occurs in lines without the leading '*' or the closing ';' was processed"))
         if EMBEDDED in s.log_bytes_lines():
             fails.append(("C16/radar/malformed_processed", "part of a line that is malformed as a whole (non-ASCII bytes before or inside the frame) was processed as a frame"))
         good, got = in_order_once(s.log_bytes_lines(), w)
@@ -470,7 +478,7 @@ def main():
     per = 24 if tier == "quick" else 600
     rc = pbt.run_parallel(
         PID, os.path.abspath(__file__), tier, nworkers, per, "exploration",
-        "Hypothesis-generated feeds (well-formed lines of CRC-valid frames of 3 aircraft interleaved with 32 kinds of malformed line), arbitrary segmentation of the byte stream with inter-segment delays on both sides of the 50 ms read timeout, server-side connection drops at arbitrary byte offsets with and without --retry-tcp; both clients as black boxes (1090: stdout; radar: pty + debug log). Oracle: the well-formed lines delivered completely on one connection are processed exactly once and in order (log / stdout restricted to that set), followed by the library's rendering (1090) / reflected in the Airplanes tab counts (radar); client alive afterwards; on disconnect exit 0 + farewell + terminal restored, or reconnect with --retry-tcp. non-trivial = malformed line followed by a well-formed one, or a pause > 50 ms inside a well-formed line, or a drop; distinct by hash of the case",
+        "Hypothesis-generated feeds (well-formed lines of CRC-valid frames of 3 aircraft interleaved with 36 kinds of malformed line), arbitrary segmentation of the byte stream with inter-segment delays on both sides of the 50 ms read timeout, server-side connection drops at arbitrary byte offsets with and without --retry-tcp; both clients as black boxes (1090: stdout; radar: pty + debug log). Oracle: the well-formed lines delivered completely on one connection are processed exactly once and in order (log / stdout restricted to that set), followed by the library's rendering (1090) / reflected in the Airplanes tab counts (radar); client alive afterwards; on disconnect exit 0 + farewell + terminal restored, or reconnect with --retry-tcp. non-trivial = malformed line followed by a well-formed one, or a pause > 50 ms inside a well-formed line, or a drop; distinct by hash of the case",
         ["the verdict never depends on measured time: delays only steer which code path runs", "a case in which the client is alive but unresponsive to three sentinels is reported as stuck; a client that does not connect is inconclusive", "lines cut by a server-side drop are excluded from the expected set"],
         a.seed,
         regress_one=lambda c: run_case(c)[0],
